@@ -720,6 +720,27 @@ static Rational ratOf(long n, long d)
    return a / b;
 }
 
+// While the real LP is stored scaled, SPxLPBase::doAddCol/doAddRow(scale = true) read the scaling exponents of the rows /
+// columns they are about to create (uninitialised; C++ side, not a C-interface matter): two objects then differ by
+// garbage.  New vectors are therefore kept inside the current dimension in that state.
+static long clampScaled(long size, bool col, Ctx& x)
+{
+   if(!x.cs->_realLP->isScaled())
+      return size;
+
+   long lim = col ? x.cs->numRows() : x.cs->numCols();
+
+   if(x.cs->_rationalLP != nullptr)
+   {
+      long rl = col ? x.cs->numRowsRational() : x.cs->numColsRational();
+
+      if(rl < lim)
+         lim = rl;
+   }
+
+   return size > lim ? lim : size;
+}
+
 struct Line
 {
    std::string args, cret, xret, obs, wr, note;
@@ -915,6 +936,7 @@ static void doOp(const std::vector<std::string>& t, Ctx& x, Line& L)
    {
       bool col = op == "addColReal";
       long size = symval(t[1], x);
+      size = clampScaled(size, col, x);
       int nnz = atoi(t[2].c_str());
       auto ps = pools(t, 3);
       Guarded<double> e(size);
@@ -958,6 +980,7 @@ static void doOp(const std::vector<std::string>& t, Ctx& x, Line& L)
    {
       bool col = op == "addColRational";
       long size = symval(t[1], x);
+      size = clampScaled(size, col, x);
       int nnz = atoi(t[2].c_str());
       int nb = col ? 6 : 4;
       long b[6];
@@ -1753,9 +1776,28 @@ static int cmdRun(const char* casefile, const char* dir)
 
       if(!dead && !L.skip)
       {
-         dc = fullDump(*x.cs);
-         dm = fullDump(*x.m);
-         eq = dc == dm ? "1" : "0";
+         // the observation itself goes through C++ getters; a fault there ends the case
+         int sig2 = sigsetjmp(g_jb, 1);
+
+         if(sig2 == 0)
+         {
+            g_armed = 1;
+            std::string e2 = guarded([&]()
+            {
+               dc = fullDump(*x.cs);
+               dm = fullDump(*x.m);
+            });
+            g_armed = 0;
+            eq = !e2.empty() ? "DUMP" + e2 : (dc == dm ? "1" : "0");
+
+            if(!e2.empty())
+               dead = true;
+         }
+         else
+         {
+            eq = "DUMPSIGNAL:" + std::to_string(sig2);
+            dead = true;
+         }
       }
 
       printf("%d %s args=%s pre=%s c=%s x=%s eq=%s obs=%s wr=%s state=%s", j, t[0].c_str(), L.args.empty() ? "-" : L.args.c_str(), pre,
